@@ -163,9 +163,10 @@ def exec_e2e(ch, cfg):
         res.bad("C16.noraise", "%s:%s@%s" % (tag, err[0], err[1]), "%s; drops %r; %d transmissions" % (err[2], [(x[0], x[1]) for x in drops], len(log)))
         return res
     res.ev("C16.complete")
-    done = sink.recv_buffer == [[0, size]] and sender.last_ack == size
+    held = [list(x) for x in sink.recv_buffer]
+    done = held == [[0, size]] and sender.last_ack == size
     if not done:
-        why = "sink-incomplete" if sink.recv_buffer != [[0, size]] else "sender-acknowledged-mark-short-of-the-data"
+        why = "sink-incomplete" if held != [[0, size]] else "sender-acknowledged-mark-short-of-the-data"
         if steps >= 20000 or env.peek() <= 4000:
             why += "-still-busy-at-the-horizon"
         res.bad("C16.complete", "%s:%s" % (tag, why), "flow %d bytes: sink %r last_ack %r at t=%r; drops %r" % (size, sink.recv_buffer, sender.last_ack, env.now, [(x[0], x[1]) for x in drops]))
